@@ -173,7 +173,7 @@ impl Prop for C20 {
         let out = Command::new("cargo")
             .args(["build", "-p", "rasn-compiler", "--features", "cli", "--offline", "--target-dir"])
             .arg(format!("{}/target/cli", verif_dir()))
-            .current_dir("/repo")
+            .current_dir(repo_dir())
             .env("CARGO_NET_OFFLINE", "true")
             .stdout(Stdio::piped())
             .stderr(Stdio::piped())
